@@ -141,9 +141,12 @@ def drive_env(name, tier, seed, hist_file=None):
     multi = len(base.reward_spec.shape) > 0
     # ---- MultiToSingleWrapper itself ----
     if multi:
+        # the last pair does NOT map an all-zero reward to 0 nor an all-one discount to 1 (a per-agent living cost, a
+        # discount factor folded into the aggregator): the FIRST timestep must be aggregated like any other
         aggs = [("sum", jnp.sum, "max", jnp.max), ("min", jnp.min, "mean", jnp.mean),
+                ("sum_shift", lambda r: jnp.sum(r - 0.25), "half_max", lambda d: 0.5 * jnp.max(d)),
                 ("first", lambda x: x[0], "min", jnp.min)]
-        for ri, (rn, rf, dn, df) in enumerate(aggs if (tier == "thorough" or name == "SyntheticMultiAgent") else aggs[:2]):
+        for ri, (rn, rf, dn, df) in enumerate(aggs if (tier == "thorough" or name == "SyntheticMultiAgent") else aggs[:3]):
             w = MultiToSingleWrapper(base, reward_aggregator=rf, discount_aggregator=df) if ri else MultiToSingleWrapper(base)
             key = jax.random.PRNGKey(seed + 11 + ri)
             ns, nts = jax.jit(base.reset)(key)
